@@ -77,7 +77,8 @@ func (c *evalOrderChecker) VisitStmt(stmt ast.Stmt) {
 
 func (c *evalOrderChecker) hasPtrRecv(fn *ast.Ident) bool {
 	sig, ok := c.ctx.TypeOf(fn).(*types.Signature)
-	if !ok {
+	if !ok || sig.Recv() == nil {
+		// Not a method: fn can be a struct field of a function type.
 		return false
 	}
 	return typep.IsPointer(sig.Recv().Type())
